@@ -7,6 +7,9 @@ import json
 from harness.appkit import Session, new_app, deliver, enc, ndn_types, nm
 from harness import strict_tlv as st
 
+import contextvars
+
+_CUR_ENTRY = contextvars.ContextVar('verif_cur_entry', default=0)
 TICK_MS = 10
 DEFAULT_LIFE = 400       # ticks: template lifetime that stands for "no lifetime given"
 REASONS = [None, 0, 150, 50, (1 << 32) + 5, (1 << 64) - 1]      # index -> real reason code (index 0 unused)
@@ -44,7 +47,7 @@ class PitRun:
         self.sess.__enter__()
         self.loop = self.sess.loop
         self.t0 = self.loop.time()
-        self.app, self.face = new_app(front)
+        self.app, self.face = new_app(front, debug_log=True)
         self.face.running = False
         self.main = self.sess.spawn(self.app.main_loop())
         self.loop.settle()
@@ -58,10 +61,12 @@ class PitRun:
         self.nsent = 0
         self.coros = {}
         self.shared_param = None
+        self.seen_data = []
 
     def close(self):
         for c in self.coros.values():
             c.close()
+        self.app._verif_restore_log()
         self.sess.__exit__(None, None, None)
 
     # ---- helpers
@@ -83,14 +88,38 @@ class PitRun:
         return name
 
     def validator_for(self, e):
-        front = self.front
-
         async def hv(*args):
-            fut = self.loop.create_future()
-            self.vfut[e - 1].append(fut)
-            self.vnew.append(e)
-            return await fut
+            return await self.validate(e, args)
         return hv
+
+    async def validate(self, e, args):
+        """body of every harness Data validator: checks that it was handed the packet that is being delivered, then
+        waits for the verdict the schedule gives"""
+        # (a validator may run later than the delivery - legacy deferred await - so any packet delivered so far counts)
+        try:
+            cands = [d for d in self.seen_data if nm(d['name']) == enc.Name.to_str(args[0])]
+            if not cands:
+                self.bg.append('validator-got-wrong-name')
+            elif len(args) >= 3 and bytes(args[2]['raw_packet']) not in [self.data_wire(d) for d in cands]:
+                self.bg.append('validator-got-wrong-raw-packet')
+            elif args[1] is None or not any(b''.join(bytes(x) for x in args[1].signature_covered_part) in self.data_wire(d)
+                                            for d in cands):
+                self.bg.append('validator-got-wrong-signature-pointers')
+        except Exception as ex:  # noqa
+            self.bg.append('validator-arguments:' + type(ex).__name__)
+        fut = self.loop.create_future()
+        self.vfut[e - 1].append(fut)
+        self.vnew.append(e)
+        return await fut
+
+    async def app_wide_validator(self, *args):
+        """legacy app.data_validator: in force for the Interests expressed without a validator of their own; the entry
+        is the one whose task is running (context variable set by with_entry)"""
+        return await self.validate(_CUR_ENTRY.get(), args)
+
+    async def with_entry(self, e, coro):
+        _CUR_ENTRY.set(e)
+        return await coro
 
     def wrap(self, wire, env, **kw):
         if env == 'bare':
@@ -188,6 +217,10 @@ class PitRun:
                 before = len(self.face.out)
                 if self.front == 'v2':
                     coro = self.app.express(name, self.validator_for(e), **kw)
+                elif e % 4 == 2:
+                    # no validator of its own: the application-wide data_validator is in force
+                    self.app.data_validator = self.app_wide_validator
+                    coro = self.with_entry(e, self.app.express_interest(name, **kw))
                 else:
                     coro = self.app.express_interest(name, validator=self.validator_for(e), **kw)
             except ndn_types.NetworkError:
@@ -221,6 +254,7 @@ class PitRun:
                 except Exception as ex:  # noqa
                     self.bg.append('express-unparsable-interest')
         elif a == 'RecvData':
+            self.seen_data.append(ev['d'])
             w = self.wrap(self.data_wire(ev['d']), ev['env'])
             ex = deliver(self.sess, self.face, w, timers_now=False, before_run=lambda: self.cancel_in_flight(ev.get('x', [])))
             if ex is not None:
